@@ -546,8 +546,7 @@ def r4(ctx, facts, cg, pred):
 
 def r5(ctx, facts):
     r = ctx.rule("R5", "the frame body read loop ends at end-of-stream: a read of 0 bytes leaves the loop with an error", floor=1)
-    from ..util import backward_slice, bool_edges, switch_edges
-    from ..util import new_async_helpers
+    from ..util import new_async_helpers, zero_count_targets
     from ..inline import inline_view
     b0 = inline_view(facts).one(r"^scylla_cql::frame::read_response_frame::\{closure#0\}$")
     n = 0
@@ -560,39 +559,43 @@ def r5(ctx, facts):
         if not in_loop:
             continue
         n += 1
-        zero_targets = []
-        for sw in sorted(b.live_blocks):
-            t = b.term(sw)
-            if t[0] != "switch" or t[1][0] not in ("c", "m"):
-                continue
-            locs, _calls, _ = backward_slice(b, t[1])
-            if c.dest[0] not in locs:
-                continue
-            sd = b.single_def(t[1][1][0])
-            if sd and sd[0] == "stmt" and sd[3][0] == "bin" and sd[3][1] in ("Eq", "Ne", "Gt", "Lt", "Le", "Ge"):
-                ops = sd[3][2:4]
-                ks = [o for o in ops if o[0] == "k" and o[1] == "int"]
-                if len(ks) != 1:
-                    continue
-                kv, const_left = int(ks[0][3]), ops[0][0] == "k"
-                tt, ff = bool_edges(b, sw)
-                op = sd[3][1]
-                if const_left:
-                    op = {"Gt": "Lt", "Lt": "Gt", "Le": "Ge", "Ge": "Le"}.get(op, op)
-                # which edge is taken when the count is 0
-                holds = {"Eq": 0 == kv, "Ne": 0 != kv, "Gt": 0 > kv, "Lt": 0 < kv, "Le": 0 <= kv, "Ge": 0 >= kv}[op]
-                # the test separates 0 from every positive count
-                if (op, kv) in (("Eq", 0), ("Ne", 0), ("Gt", 0), ("Lt", 1), ("Le", 0), ("Ge", 1)):
-                    zero_targets.append(tt if holds else ff)
-            else:
-                vals, other = switch_edges(b, sw)
-                if 0 in vals and b.local_ty(t[1][1][0]) in ("usize", "u64", "u32"):
-                    zero_targets.append(vals[0])
+        zero_targets = [z for _sw, z in zero_count_targets(b, c)]
         ok = bool(zero_targets) and all(c.bb not in b.reachable_from(z) for z in zero_targets)
         r.instance("zero-read-leaves-loop", ok,
                    "%s returns Ok(0) at end of stream, every time: the loop around it must test the count and leave on 0 (otherwise a frame cut inside its body makes the "
                    "reader spin forever instead of returning ConnectionClosed); tests found: %d" % (c.decl.split("::")[-1], len(zero_targets)), c.span)
     r.instance("counting-reads-in-loops", True, "%d counting reads inside loops" % n, b0.span, nontrivial=False)
+
+
+# CQL v4 section 2.2: after decompression the body starts with [tracing id][warnings][custom payload], each announced by its header flag
+BODY_EXTENSIONS = [("decompress", 0x01, "frame::decompress"), ("tracing id", 0x02, "types::read_uuid"), ("warnings", 0x08, "types::read_string_list"),
+                   ("custom payload", 0x04, "types::read_bytes_map")]
+
+
+def r6(ctx, facts):
+    r = ctx.rule("R6", "response body extensions are read in wire order (tracing id, warnings, custom payload), each under its own header flag", floor=7)
+    from ..inline import inline_view
+    from ..util import dj_of
+    b = inline_view(facts).one(r"^scylla_cql::frame::parse_response_body_extensions$")
+    dj = dj_of(b, inline_view(facts))
+    sites = []
+    for label, flag, suffix in BODY_EXTENSIONS:
+        cs = [c for bb, c in b.calls() if bb in b.live_blocks and (c.name or "").endswith(suffix)]
+        if len(cs) != 1:
+            raise AnchorLost("parse_response_body_extensions: expected one call of %s, found %d" % (suffix, len(cs)))
+        c = cs[0]
+        sites.append((label, flag, c))
+        good = bool(dj.states.get(c.bb))
+        for fs in dj.states.get(c.bb, ()):
+            st = dict(fs)
+            bits = {k[3][1] if k[3][0] == "const" else k[2][1] for k, v in st.items() if k[0] == "bin" and k[1] == "BitAnd" and (("const", flag) in k[2:4])
+                    and ((v[0] == "notin" and 0 in v[1]) or (v[0] == "in" and 0 not in v[1]))}
+            if flag not in bits:
+                good = False
+        r.instance("read-under-its-flag:" + label, good, "the %s must be read exactly where header flag 0x%02x is set" % (label, flag), c.span)
+    for (la, _, a), (lb, _, c2) in zip(sites, sites[1:]):
+        r.instance("order:%s-before-%s" % (la, lb), c2.bb in b.reachable_from(a.bb) and a.bb not in b.reachable_from(c2.bb),
+                   "on the wire the %s precedes the %s: reading them in another order mis-frames every response that carries both" % (la, lb), c2.span)
 
 
 def selftest(ctx):
@@ -644,7 +647,7 @@ def check(ctx):
     for p, n in per.items():
         anc.instance("entry:" + p, n > 0, "%d bodies match" % n, nontrivial=False)
     ctx.extra["decode_reachable_bodies"] = len(pred)
-    for fn in (lambda: r1(ctx, facts, cg, pred), lambda: r2(ctx, facts), lambda: r3(ctx, facts, cg, pred), lambda: r4(ctx, facts, cg, pred), lambda: r5(ctx, facts)):
+    for fn in (lambda: r1(ctx, facts, cg, pred), lambda: r2(ctx, facts), lambda: r3(ctx, facts, cg, pred), lambda: r4(ctx, facts, cg, pred), lambda: r5(ctx, facts), lambda: r6(ctx, facts)):
         try:
             fn()
         except AnchorLost as ex:
